@@ -4,19 +4,25 @@
 
     (i) PROTOCOL.  Who is told which sample rate, and when.  Transcribes
         - [Renderer::on_change_sample_rate]          (backend/renderer.rs): dt := 1/r; shared.store(r); mixer fan-out
-        - [Mixer::on_change_sample_rate]             (backend/resources/mixer.rs): main track, the sub-tracks IN THE
-                                                      ARENA, the send tracks IN THE ARENA
-        - [Track::init_effects / on_change_sample_rate] (track/sub.rs): own effects, then sub-tracks in the arena
+        - [Mixer::on_change_sample_rate]             (backend/resources/mixer.rs): self.sample_rate := r; main track, the
+                                                      sub-tracks IN THE ARENA, the send tracks IN THE ARENA
+        - [Track::init_effects / on_change_sample_rate] (track/sub.rs): self.sample_rate := r (the rate the effects were
+                                                      last told); own effects, then sub-tracks in the arena
         - [Delay::init / on_change_sample_rate]      (effect/delay.rs): own buffer length, then the feedback effects
         - [AudioManager::add_sub_track / add_send_track], [TrackHandle::add_sub_track]  (manager.rs, track/sub/handle.rs):
           build; LOAD shared rate (caller thread); init_effects(loaded); push on the new-resource queue
-        - [Mixer::on_start_processing] / [Track::on_start_processing]: [remove_and_add] moves the queue into the
-          arena (most recently inserted first); nothing re-initialises what is picked up
+        - [Mixer::on_start_processing] / [Track::on_start_processing(sample_rate)]: [remove_and_add] moves the queue
+          into the arena (most recently inserted first); the mixer hands ITS sample rate down, and every track
+          (sub, send, nested) whose remembered rate differs calls its own [on_change_sample_rate] first (the repair
+          of F14: a track that was initialised on the caller's thread with a rate that is no longer in force --
+          because the change happened while the track was queued, or between the caller's load and its enqueue --
+          is told the rate in force at its first [on_start_processing])
         - [Mixer::process] / [Track::process] / [Delay::process]: every effect processes with the renderer's [dt];
           a Delay cuts its input into pieces of its buffer length for its feedback effects.
         The add path is TWO atomic steps ([G_load], [G_enqueue]) so that audio-thread steps can fall between them.
-        One ghost bit per track ([raced]) records "a rate change to a different rate happened while this track
-        was between its load and its pick-up, and no fan-out has reached it since".
+        The step function takes a flag [resync]: [true] is the code as it is; [false] switches the comparison in
+        [on_start_processing] off, which is the protocol BEFORE the repair of F14 -- kept as a counter-model for the
+        regression theorems only.
 
     (ii) SCALING LAWS with dt = 1/sr: what a sound / clock / tween / delay / filter does with [dt] and the rate. *)
 From Coq Require Import ZArith QArith Qround List Bool.
@@ -31,50 +37,59 @@ Inductive how := ByInit | ByChange.
 (** an effect remembers every rate it was told (most recent first); [fb]: nested effects (a Delay's feedback chain) *)
 Inductive effect := Eff (id : Z) (k : ekind) (told : list (how * Z)) (fb : list effect).
 Inductive eshape := SEff (id : Z) (k : ekind) (fb : list eshape).
-(** a sub-track / send track: effects, sub-tracks in its arena, sub-tracks pushed on its new-resource queue *)
-Inductive track := Trk (id : Z) (raced : bool) (effs : list effect) (arena : list track) (queue : list track).
+(** a sub-track / send track: [Track.sample_rate] (the rate its effects were last told), effects, sub-tracks in its
+    arena, sub-tracks pushed on its new-resource queue *)
+Inductive track := Trk (id : Z) (rate : Z) (effs : list effect) (arena : list track) (queue : list track).
 Definition tshape : Type := (Z * list eshape)%type.
 
 Definition last_told (told : list (how * Z)) : Z := match told with (_, r) :: _ => r | [] => 0 end.
 Definition eff_told (e : effect) : list (how * Z) := match e with Eff _ _ told _ => told end.
 Definition eff_rate (e : effect) : Z := last_told (eff_told e).
+Definition trk_rate (t : track) : Z := match t with Trk _ r _ _ _ => r end.
 
-(** [EffectBuilder::build], [TrackBuilder::build]: nothing knows a rate yet; storages are empty *)
+(** [EffectBuilder::build], [TrackBuilder::build]: nothing knows a rate yet ([sample_rate: 0]); storages are empty *)
 Fixpoint build_effect (s : eshape) : effect :=
   match s with SEff i k fb => Eff i k [] (map build_effect fb) end.
-Definition build_track (s : tshape) : track := Trk (fst s) false (map build_effect (snd s)) [] [].
+Definition build_track (s : tshape) : track := Trk (fst s) 0 (map build_effect (snd s)) [] [].
 
 (** [Effect::init] / [Effect::on_change_sample_rate] of the probe and of [Delay] (which forwards to its feedback effects) *)
 Fixpoint tell (h : how) (r : Z) (e : effect) : effect :=
   match e with Eff i k told fb => Eff i k ((h, r) :: told) (map (tell h r) fb) end.
 
-(** [Track::init_effects]: own effects, then the sub-tracks in the arena (the queue is not looked at) *)
+(** [Track::init_effects]: remember the rate; own effects, then the sub-tracks in the arena (the queue is not looked at) *)
 Fixpoint init_track (r : Z) (t : track) : track :=
-  match t with Trk i rc effs ar q => Trk i rc (map (tell ByInit r) effs) (map (init_track r) ar) q end.
+  match t with Trk i _ effs ar q => Trk i r (map (tell ByInit r) effs) (map (init_track r) ar) q end.
 
-(** ghost: everything hanging below a queue missed this fan-out *)
-Fixpoint mark_raced (t : track) : track :=
-  match t with Trk i _ effs ar q => Trk i true effs (map mark_raced ar) (map mark_raced q) end.
+(** [Track::on_change_sample_rate]: remember the rate; own effects, then the sub-tracks in the arena (the queue is
+    not looked at) *)
+Fixpoint change_track (r : Z) (t : track) : track :=
+  match t with Trk i _ effs ar q => Trk i r (map (tell ByChange r) effs) (map (change_track r) ar) q end.
 
-(** [Track::on_change_sample_rate]: own effects, then the sub-tracks in the arena (the queue is not looked at);
-    [differs]: the new rate is not the one in force before (ghost bookkeeping only) *)
-Fixpoint change_track (differs : bool) (r : Z) (t : track) : track :=
+(** [Track::on_start_processing(sample_rate)] (and [SendTrack::on_start_processing], which has no sub-tracks):
+      if self.sample_rate != sample_rate { self.on_change_sample_rate(sample_rate) }
+      sub_tracks.remove_and_add (queue -> arena, most recent first)
+      for every sub-track in the arena: on_start_processing(sample_rate)
+    [chg] says that the [on_change_sample_rate(r)] of an ancestor has, in this same call, already fanned out to this
+    track (it was in that ancestor's arena chain): [start_track rs true r t = start_track rs false r (change_track r t)]
+    (proved: [start_after_change]); written with a flag so that the recursion is structural.
+    [rs = false] switches the comparison off (the code before the repair of F14). *)
+Fixpoint start_track (rs chg : bool) (r : Z) (t : track) : track :=
   match t with
-  | Trk i _ effs ar q =>
-      Trk i false (map (tell ByChange r) effs) (map (change_track differs r) ar)
-          (if differs then map mark_raced q else q)
+  | Trk i tr effs ar q =>
+      let tr1 := if chg then r else tr in
+      let effs1 := if chg then map (tell ByChange r) effs else effs in
+      let sync := rs && negb (tr1 =? r) in
+      let tr2 := if sync then r else tr1 in
+      let effs2 := if sync then map (tell ByChange r) effs1 else effs1 in
+      Trk i tr2 effs2 (rev (map (start_track rs false r) q) ++ map (start_track rs (chg || sync) r) ar) []
   end.
-
-(** [Track::on_start_processing]: [sub_tracks.remove_and_add] (queue -> arena, most recent first), then recurse *)
-Fixpoint pickup (t : track) : track :=
-  match t with Trk i rc effs ar q => Trk i rc effs (rev (map pickup q) ++ map pickup ar) [] end.
 
 (** [TrackHandle::add_sub_track]: the handle's controller pushes on that track's queue wherever the track is *)
 Fixpoint push_under (pid : Z) (nt : track) (t : track) : track :=
   match t with
-  | Trk i rc effs ar q =>
+  | Trk i tr effs ar q =>
       let q' := map (push_under pid nt) q in
-      Trk i rc effs (map (push_under pid nt) ar) (if i =? pid then q' ++ [nt] else q')
+      Trk i tr effs (map (push_under pid nt) ar) (if i =? pid then q' ++ [nt] else q')
   end.
 
 (** a [process] call seen by a probe: (probe id, rate it was last told, rate r with dt = 1/r, frames) *)
@@ -94,6 +109,7 @@ Record pending := { p_slot : Z; p_dest : dest; p_track : track; p_loaded : Z }.
 Record state := {
   s_rate : Z;                (* RendererShared.sample_rate *)
   s_dtr : Z;                 (* Renderer.dt = 1 / s_dtr *)
+  s_mix : Z;                 (* Mixer.sample_rate *)
   s_ibs : Z;                 (* internal buffer size *)
   s_main : list effect;      (* main track effects *)
   s_subs : list track;  s_subq : list track;       (* mixer sub-track arena / new-resource queue *)
@@ -115,6 +131,8 @@ Definition delay_frames_int (t_ns sr : Z) : Z :=
 Section Protocol.
   (** [Delay]: (delay_time in ns, sample rate) -> (delay_time.as_secs_f64() * sample_rate as f64) as usize *)
   Variable frames_of : Z -> Z -> Z.
+  (** [true]: the code as it is; [false]: without the comparison in [on_start_processing] (before the repair of F14) *)
+  Variable resync : bool.
 
   Definition delay_len (t_ns r : Z) : Z := Z.max 1 (frames_of t_ns r).
 
@@ -143,16 +161,13 @@ Section Protocol.
   Definition remove_pending (slot : Z) (l : list pending) : list pending :=
     filter (fun p => negb (p_slot p =? slot)) l.
 
-  Definition mark_pending (p : pending) : pending :=
-    {| p_slot := p_slot p; p_dest := p_dest p; p_track := mark_raced (p_track p); p_loaded := p_loaded p |}.
-
-  Definition step (s : state) (o : op) : state * list event :=
+  Definition step_gen (s : state) (o : op) : state * list event :=
     match o with
     | G_load slot d sh =>
         match find_pending slot (s_pend s) with
         | Some _ => (s, [])
         | None =>
-            ({| s_rate := s_rate s; s_dtr := s_dtr s; s_ibs := s_ibs s; s_main := s_main s;
+            ({| s_rate := s_rate s; s_dtr := s_dtr s; s_mix := s_mix s; s_ibs := s_ibs s; s_main := s_main s;
                 s_subs := s_subs s; s_subq := s_subq s; s_sends := s_sends s; s_sendq := s_sendq s;
                 s_pend := s_pend s ++ [{| p_slot := slot; p_dest := d; p_track := build_track sh; p_loaded := s_rate s |}] |}, [])
         end
@@ -164,46 +179,51 @@ Section Protocol.
             let pend' := remove_pending slot (s_pend s) in
             match p_dest p with
             | DSub =>
-                ({| s_rate := s_rate s; s_dtr := s_dtr s; s_ibs := s_ibs s; s_main := s_main s;
+                ({| s_rate := s_rate s; s_dtr := s_dtr s; s_mix := s_mix s; s_ibs := s_ibs s; s_main := s_main s;
                     s_subs := s_subs s; s_subq := s_subq s ++ [t]; s_sends := s_sends s; s_sendq := s_sendq s;
                     s_pend := pend' |}, [])
             | DUnder pid =>
-                ({| s_rate := s_rate s; s_dtr := s_dtr s; s_ibs := s_ibs s; s_main := s_main s;
+                ({| s_rate := s_rate s; s_dtr := s_dtr s; s_mix := s_mix s; s_ibs := s_ibs s; s_main := s_main s;
                     s_subs := map (push_under pid t) (s_subs s); s_subq := map (push_under pid t) (s_subq s);
                     s_sends := s_sends s; s_sendq := s_sendq s; s_pend := pend' |}, [])
             | DSend =>
-                ({| s_rate := s_rate s; s_dtr := s_dtr s; s_ibs := s_ibs s; s_main := s_main s;
+                ({| s_rate := s_rate s; s_dtr := s_dtr s; s_mix := s_mix s; s_ibs := s_ibs s; s_main := s_main s;
                     s_subs := s_subs s; s_subq := s_subq s; s_sends := s_sends s; s_sendq := s_sendq s ++ [t];
                     s_pend := pend' |}, [])
             end
         end
     | A_change r =>
-        let differs := negb (r =? s_rate s) in
-        let ghost (l : list track) := if differs then map mark_raced l else l in
-        ({| s_rate := r; s_dtr := r; s_ibs := s_ibs s;
+        ({| s_rate := r; s_dtr := r; s_mix := r; s_ibs := s_ibs s;
             s_main := map (tell ByChange r) (s_main s);
-            s_subs := map (change_track differs r) (s_subs s); s_subq := ghost (s_subq s);
-            s_sends := map (change_track differs r) (s_sends s); s_sendq := ghost (s_sendq s);
-            s_pend := if differs then map mark_pending (s_pend s) else s_pend s |}, [])
+            s_subs := map (change_track r) (s_subs s); s_subq := s_subq s;
+            s_sends := map (change_track r) (s_sends s); s_sendq := s_sendq s;
+            s_pend := s_pend s |}, [])
     | A_callback n =>
-        let s' := {| s_rate := s_rate s; s_dtr := s_dtr s; s_ibs := s_ibs s; s_main := s_main s;
-                     s_subs := map pickup (rev (s_subq s) ++ s_subs s); s_subq := [];
-                     s_sends := rev (s_sendq s) ++ s_sends s; s_sendq := [];
+        let s' := {| s_rate := s_rate s; s_dtr := s_dtr s; s_mix := s_mix s; s_ibs := s_ibs s; s_main := s_main s;
+                     s_subs := map (start_track resync false (s_mix s)) (rev (s_subq s) ++ s_subs s); s_subq := [];
+                     s_sends := map (start_track resync false (s_mix s)) (rev (s_sendq s) ++ s_sends s); s_sendq := [];
                      s_pend := s_pend s |} in
         (s', flat_map (process_chunk s') (chunks_of n (s_ibs s)))
     end.
 
   (** a history is a list of steps; the events of all callbacks are collected *)
-  Fixpoint run (s : state) (h : list op) : state * list event :=
+  Fixpoint run_gen (s : state) (h : list op) : state * list event :=
     match h with
     | [] => (s, [])
-    | o :: h' => let '(s1, e1) := step s o in let '(s2, e2) := run s1 h' in (s2, e1 ++ e2)
+    | o :: h' => let '(s1, e1) := step_gen s o in let '(s2, e2) := run_gen s1 h' in (s2, e1 ++ e2)
     end.
 End Protocol.
 
+(** the code as it is *)
+Definition step (frames_of : Z -> Z -> Z) : state -> op -> state * list event := step_gen frames_of true.
+Definition run (frames_of : Z -> Z -> Z) : state -> list op -> state * list event := run_gen frames_of true.
+(** the counter-model: [on_start_processing] without the comparison (before the repair of F14) *)
+Definition step_unrepaired (frames_of : Z -> Z -> Z) : state -> op -> state * list event := step_gen frames_of false.
+Definition run_unrepaired (frames_of : Z -> Z -> Z) : state -> list op -> state * list event := run_gen frames_of false.
+
 (** [AudioManager::new]: the main track's effects are initialised with the backend's rate *)
 Definition init_state (sr ibs : Z) (main : list eshape) : state :=
-  {| s_rate := sr; s_dtr := sr; s_ibs := ibs; s_main := map (fun e => tell ByInit sr (build_effect e)) main;
+  {| s_rate := sr; s_dtr := sr; s_mix := sr; s_ibs := ibs; s_main := map (fun e => tell ByInit sr (build_effect e)) main;
      s_subs := []; s_subq := []; s_sends := []; s_sendq := []; s_pend := [] |}.
 
 (** * (ii) scaling laws (one term for binary64 and for Q) *)
